@@ -70,9 +70,13 @@ inductive Policy where
   | raise                   -- valid_read/valid_write raise an error for every path
   | raiseOn (s : CStr)      -- raise an error for exactly this path argument, return 1 otherwise
   | odd (what : String)     -- return an array / float / object / negative int …
+  | readOnly                -- valid_read returns 1, valid_write returns 0
+  | writeOnly               -- valid_read returns 0, valid_write returns 1
+  | roPath (s : CStr)       -- everything allowed, except writing to exactly this path argument
   deriving Repr, DecidableEq
 
-def Policy.verdict (p : Policy) (path : CStr) : Verdict :=
+/-- the master's answer to valid_write (`w = true`) / valid_read for `path` -/
+def Policy.verdict (p : Policy) (w : Bool) (path : CStr) : Verdict :=
   match p with
   | .deny => .deny
   | .allow => .ok
@@ -80,7 +84,10 @@ def Policy.verdict (p : Policy) (path : CStr) : Verdict :=
   | .fixed s => .rewrite s
   | .raise => .raise
   | .raiseOn s => if path = s then .raise else .ok
-  | .odd w => .odd w
+  | .odd x => .odd x
+  | .readOnly => if w then .deny else .ok
+  | .writeOnly => if w then .ok else .deny
+  | .roPath s => if w ∧ path = s then .deny else .ok
 
 /-! ### events -/
 
@@ -154,6 +161,7 @@ def opNames : List (String × List String) := [
   ("get_dir", ["stat"]), ("rename", ["rename", "file_size"]), ("link", ["rename", "file_size"]),
   ("cp", ["cp"]), ("save_object", ["save_object"]), ("restore_object", ["restore_object"]),
   ("dumpallobj", ["dumpallobj"]), ("dump_prog", ["dumpallobj"]), ("ed", ["ed_start"])]
+
 
 /-- efuns whose file access is NOT mediated by valid_read/valid_write (compiler: load_object, #include,
     inherit): only confinement is required of them -/
